@@ -763,7 +763,10 @@ class Evaluator:
             if key is None or key not in env:
                 raise Unrecognised(f"{cal} on an untracked place")
             old = env[key]
-            new = self.ev(e["args"][1], env) if cal.endswith("replace") else ("default",)
+            if cal.endswith("replace"):
+                new = self.ev(e["args"][1], env)
+            else:           # mem::take leaves the type's Default
+                new = {"array": ("array",), "int": ("int", 0), "str": ("str", ""), "some": ("none",), "none": ("none",), "bool": ("bool", False)}.get(old[0], ("default",))
             if isinstance(env, Env):
                 env.assign(key, new)
             else:
